@@ -61,6 +61,7 @@ type GhostDecl struct {
 	Name string
 	Sort Sort
 	Init ast.Expr
+	Elem string // RefSeq: name of the Go element type (for method calls on elements in specs)
 }
 
 type Pred struct {
@@ -252,6 +253,9 @@ func ParseContracts(file string, c *Contracts) error {
 					return fmt.Errorf("%s:%d: %v", file, line, err)
 				}
 				g := &GhostDecl{Name: f[0], Sort: s}
+				if len(f) >= 3 && f[2] != "=" {
+					g.Elem = f[2]
+				}
 				if _, init, ok := strings.Cut(rest, "="); ok {
 					e, err := parseSpecExpr(strings.TrimSpace(init), file, line)
 					if err != nil {
